@@ -494,7 +494,7 @@ func c03scenarios(res *report.Result) []schedrun.Scenario {
 				}
 			}
 		}
-		out = append(out, schedrun.Scenario{Name: p.name(), Mode: explore.Delay, Bound: b, MaxSteps: 400000, Weight: w})
+		out = append(out, schedrun.Scenario{Name: p.name(), Mode: explore.Delay, Bound: b, MaxSteps: 400000, Weight: w, Postpone: b > 0})
 	}
 	return out
 }
